@@ -51,7 +51,10 @@ ASSUMPTIONS = [
     "(such hierarchies are not generated)",
 ]
 
-ALPHA3 = ["a", "b", "c"]
+# (two of the three names are valid short names that a Python attribute cannot carry as they
+# are - the name of a list method and a name with a leading digit: short names are what value
+# inheritance goes by, whatever a container makes of them as keys)
+ALPHA3 = ["a", "count", "1c"]
 ALPHABET: Dict[str, List[str]] = {
     "service": ALPHA3, "job": ALPHA3, "dop": ALPHA3, "table": ALPHA3, "gnr": ALPHA3,
     "funct_class": ALPHA3, "state_chart": ALPHA3, "audience": ALPHA3, "unit_group": ALPHA3,
